@@ -346,7 +346,10 @@ func handleRefreshRequest(req Request, stunMsg *stun.Message) error {
 	}
 
 	if lifetimeDuration != 0 {
-		a.Refresh(lifetimeDuration)
+		if !a.Refresh(lifetimeDuration) {
+			// The request met the expiry of the allocation: it is gone.
+			return fmt.Errorf("%w %v:%v", errNoAllocationFound, req.SrcAddr, req.Conn.LocalAddr())
+		}
 	} else {
 		req.AllocationManager.DeleteAllocation(fiveTuple)
 	}
